@@ -17,6 +17,7 @@ package lucene
 // Injected into the root package with `go test -overlay`; never written to /repo.
 
 import (
+	"bytes"
 	"encoding/json"
 	"fmt"
 	"math"
@@ -69,7 +70,12 @@ func vc01WriteReport(rep *vc01Report) {
 	if rep.Samples == nil {
 		rep.Samples = []string{}
 	}
-	b, err := json.MarshalIndent(rep, "", " ")
+	var buf bytes.Buffer
+	enc := json.NewEncoder(&buf)
+	enc.SetEscapeHTML(false)
+	enc.SetIndent("", " ")
+	err := enc.Encode(rep)
+	b := buf.Bytes()
 	if err != nil {
 		b = []byte(fmt.Sprintf(`{"property":"C01","failure_count":1,"by_category":{"harness-error":1},"failures":[%q]}`, "[harness-error] cannot encode report: "+err.Error()))
 	}
@@ -354,12 +360,7 @@ var vc01ByteAlphabet = []string{
 	";", "\x00", "\xff", "\xc3", "\x80",
 }
 
-// reduced alphabet (24 symbols) for one more symbol of length
-var vc01ByteAlphabetSmall = []string{
-	"a", "1", "\u00e9", "*", "\\", ".", "-", " ", "\"", "'", "/", "(", ")", "[", "]", "{", ":", "+", "<", "=", "~", "^", "\xff", "\x00",
-}
-
-// smaller still (20 symbols), for length 5 in the thorough tier
+// reduced alphabet (20 symbols) for one more symbol of length
 var vc01ByteAlphabetTiny = []string{
 	"a", "1", "\u00e9", "*", "\\", ".", "-", " ", "\"", "/", "(", ")", "[", "]", ":", "+", "<", "~", "\xff", "\x00",
 }
@@ -371,11 +372,11 @@ var vc01Tokens = []string{
 	"(", ")", "[", "]", "{", "}", ":", "+", "-", "=", ">", "<", "~", "^",
 }
 
-// reduced token vocabulary (24 tokens) for one more token of length
-var vc01TokensSmall = []string{
-	"a", "1", "-1", `"q r"`, "/re/", "w*", "*",
+// reduced token vocabulary (20 tokens) for one more token of length
+var vc01TokensTiny = []string{
+	"a", "1", `"q r"`, "/re/", "w*", "*",
 	"AND", "OR", "NOT", "TO",
-	"(", ")", "[", "]", "{", "}", ":", "+", "-", "=", ">", "~", "^",
+	"(", ")", "[", "]", ":", "+", "-", "=", "~", "^",
 }
 
 // reduced chunk vocabulary (30 chunks) for one more chunk of length
@@ -537,11 +538,12 @@ var vc01Families = []vc01Family{
 	{"numbers-many", func(n int) string { return vc01Rep("-1 ", n) }},
 }
 
+// shape sizes in tokens; the quick tier stops at 5000 (set in the test), the thorough tier at 10^4
 var vc01Sizes = []int{39, 78, 156, 312, 625, 1250, 2500, 5000, 10000}
 
 const (
 	vc01EnumHang = 8 * time.Second // one short enumerated input must never take this long
-	vc01Growth2  = 36.0            // time(4n)/time(n): 16 is quadratic, 64 is cubic
+	vc01Growth2  = 45.0            // time(4n)/time(n): 16 is quadratic, 64 is cubic (32: quadratic with a 2x allocator/cache step)
 	vc01Growth1  = 5.0             // and time(4n)/time(2n): 4 is quadratic, 8 is cubic
 )
 
@@ -594,7 +596,7 @@ func (l *vc01Ladder) find(cat, in, msg string) {
 	l.mu.Unlock()
 }
 
-// vc01Measure runs one operation (min of a few repetitions when it is fast).
+// measure runs one operation (min of a few repetitions when it is fast).
 func (l *vc01Ladder) measure(stage, n int, in string, tree *expr.Expression, reps int) (best time.Duration, res vc01Res, panicked bool) {
 	cfg := &vc01Cfgs[l.cfg]
 	best = time.Duration(math.MaxInt64)
@@ -665,7 +667,10 @@ func (l *vc01Ladder) run(budget time.Duration, reps int) {
 				cat := "slow-" + vc01StageTag[stage] + "-" + l.family.name
 				l.find(cat, in, fmt.Sprintf("[%s] %s : %s on shape %s(%d tokens) with %s took %v, the (generous, quadratic) cap for this size is %v", cat, vc01Abbrev(in), vc01StageName[stage], l.family.name, n, cfg.name, d, vc01Cap(n)))
 			}
-			if stage != vc01StParse && stage != vc01StJSON && res.text != "" && !strings.Contains(in, "%!") {
+			if stage == vc01StParse && res.tree == nil && res.err == nil {
+				l.find("parse-neither-tree-nor-error", in, fmt.Sprintf("[parse-neither-tree-nor-error] %s : Parse with %s must return a tree or an error, it returned (nil, nil)", vc01Abbrev(in), cfg.name))
+			}
+			if stage != vc01StParse && res.text != "" && !strings.Contains(in, "%!") {
 				if suffix, excerpt := vc01Marker(res.text); suffix != "" {
 					cat := "fmt-marker-" + vc01StageTag[stage] + "-" + suffix
 					l.find(cat, in, fmt.Sprintf("[%s] %s : text of %s with %s must not contain a Go formatting-error marker, it contains %q", cat, vc01Abbrev(in), vc01StageName[stage], cfg.name, excerpt))
@@ -797,11 +802,13 @@ func TestVerifStandin_C01(t *testing.T) {
 	rep.Failures = nil
 
 	// full vocabularies up to length L, reduced vocabularies at length L+1
-	byteLen, tokLen, chunkLen, nRandom := 3, 3, 2, 100000
-	nextBytes := vc01ByteAlphabetSmall
+	byteLen, tokLen, chunkLen, nRandom := 3, 3, 2, 60000
+	nextBytes, nextTokens := vc01ByteAlphabetTiny, vc01TokensTiny
+	if tier != "thorough" {
+		vc01Sizes = vc01Sizes[:8] // ... 5000
+	}
 	if tier == "thorough" {
-		byteLen, tokLen, chunkLen, nRandom = 4, 4, 3, 1500000
-		nextBytes = vc01ByteAlphabetTiny
+		byteLen, tokLen, chunkLen, nRandom = 4, 4, 3, 750000
 	}
 
 	t0 := time.Now()
@@ -929,8 +936,8 @@ func TestVerifStandin_C01(t *testing.T) {
 
 		begin(fmt.Sprintf("token-sequences<=%d-over-%d-tokens", tokLen, len(vc01Tokens)), 2)
 		vc01Enumerate(vc01Tokens, " ", 1, tokLen, emit)
-		begin(fmt.Sprintf("token-sequences=%d-over-%d-tokens", tokLen+1, len(vc01TokensSmall)), 2)
-		vc01Enumerate(vc01TokensSmall, " ", tokLen+1, tokLen+1, emit)
+		begin(fmt.Sprintf("token-sequences=%d-over-%d-tokens", tokLen+1, len(nextTokens)), 2)
+		vc01Enumerate(nextTokens, " ", tokLen+1, tokLen+1, emit)
 
 		begin(fmt.Sprintf("chunk-sequences<=%d-over-%d-chunks", chunkLen, len(vc01Chunks)), 3)
 		vc01Enumerate(vc01Chunks, " ", 1, chunkLen, emit)
@@ -1194,11 +1201,11 @@ func TestVerifStandin_C01(t *testing.T) {
 		"all sequences of <=%d tokens over %d token kinds and all of %d tokens over %d kinds; all sequences of <=%d chunks (whole clauses and connectors) over %d chunks and all of %d over %d; clause templates over %d values (ranges, lists, comparisons, fuzzy, boost, field position); "+
 		"%d seeded random byte strings (<=24 bytes: raw bytes, printable ASCII, class alphabet) and %d random token/chunk sequences (5..14 items); %d adversarial shape families (deep nesting, long operator chains, operator-only, unbalanced brackets, long tokens) at %v tokens with timing. "+
 		"distinct_nontrivial = inputs for which Parse returned a tree under at least one option, so that all six operations ran (enumerated strings are pairwise distinct within a domain; cross-domain overlap is below 0.1%%)",
-		byteLen, len(vc01ByteAlphabet), byteLen+1, len(nextBytes), tokLen, len(vc01Tokens), tokLen+1, len(vc01TokensSmall), chunkLen, len(vc01Chunks), chunkLen+1, len(vc01ChunksSmall), len(vc01Values), nRandom, nRandom, len(vc01Families), vc01Sizes)
+		byteLen, len(vc01ByteAlphabet), byteLen+1, len(nextBytes), tokLen, len(vc01Tokens), tokLen+1, len(nextTokens), chunkLen, len(vc01Chunks), chunkLen+1, len(vc01ChunksSmall), len(vc01Values), nRandom, nRandom, len(vc01Families), vc01Sizes)
 	rep.Notes = append(rep.Notes,
 		fmt.Sprintf("json.Marshal returned an error (a normal return, not a failure) for %d input/option pairs (NaN/Inf values, nesting deeper than encoding/json allows)", jsonErrs),
 		fmt.Sprintf("%d inputs contain \"%%!\" themselves; the marker check does not apply to them", skipped),
-		fmt.Sprintf("growth rule (floor %v): an operation is measured at 39,78,...,5000,10000 tokens while one call stays within the per-call budget; flagged when, at the three largest sizes n,2n,4n measured, time(4n) >= floor, time(4n)/time(n) > 36 and time(4n)/time(2n) > 5, and a second measurement without concurrent load confirms; absolute cap per call 1s + 60s*(n/10^4)^2; times are CPU times of the measuring thread (wall-clock where unavailable)", floorUsed),
+		fmt.Sprintf("growth rule (floor %v): an operation is measured at 39,78,156,... tokens while one call stays within the per-call budget; flagged when, at the three largest sizes n,2n,4n measured, time(4n) >= floor, time(4n)/time(n) > 45 and time(4n)/time(2n) > 5, and a second measurement without concurrent load confirms; absolute cap per call 1s + 60s*(n/10^4)^2; largest size 5000 tokens in the quick tier, 10000 in the thorough tier; times are CPU times of the measuring thread (wall-clock where unavailable)", floorUsed),
 		fmt.Sprintf("short inputs: wall %v cpu %v; long shapes: wall %v cpu %v (%d workers)", phase1Dur.Round(time.Millisecond), phase1CPU.Round(time.Millisecond), phase2Dur.Round(time.Millisecond), phase2CPU.Round(time.Millisecond), workers),
 	)
 	vc01WriteReport(rep)
